@@ -120,6 +120,9 @@ static bool build_state(C& c, const Abs& t, int64_t last_now)
     return same;
 }
 struct Call { unsigned long long op, k, v, al, pk; long long ttl, now; };
+static Call g_extra[4];
+static int  g_nextra;
+static int  g_explore; // depth of the continuation search after the listed calls (0: off)
 static unsigned long long g_draws[16];
 static size_t             g_next_draw;
 #if T_POLICY == P_RR
@@ -156,10 +159,26 @@ static int state_attempt(const Abs& t, long long last_now_, long long ttl_, long
             Res r;
             exec_call(c, ev, r);
             if (g_prop != 8) alpha_real(c, post);
-            printf("state-mode[v%d] call %d op=%d k=%llu v=%llu a=%llu pk=%llu ttl=%lld now=%lld -> ok=%d val=%llu cnt=%llu n=%zu size=%zu\n", g_variant, ci,
+            if (g_nextra == 0) printf("state-mode[v%d] call %d op=%d k=%llu v=%llu a=%llu pk=%llu ttl=%lld now=%lld -> ok=%d val=%llu cnt=%llu n=%zu size=%zu\n", g_variant, ci,
                    (int)cl.op, cl.k, cl.v, cl.al, cl.pk, cl.ttl, cl.now, (int)r.ok, (unsigned long long)r.val, (unsigned long long)r.cnt, r.n, r.size);
             if (ci == ncalls - 1 && g_prop != 8) check_clauses(pre, post, ev, r);
             pre = post;
+        }
+        // continuation (exploration mode): the extra calls chosen by the explorer, clauses asserted around each
+        for (int xi = 0; xi < g_nextra && g_fail == 0; ++xi)
+        {
+            const Call& cl = g_extra[xi];
+            g_step = ncalls + xi;
+            Ev ev; ev.op = (int)cl.op; ev.k = cl.k; ev.v = cl.v; ev.a = (uint8_t)cl.al; ev.pk = cl.pk != 0; ev.ttl = cl.ttl; ev.now = cl.now;
+#if T_POLICY == P_RR
+            force_draw(c, cl);
+#endif
+            Res r;
+            exec_call(c, ev, r);
+            if (g_prop != 8) { alpha_real(c, post); check_clauses(pre, post, ev, r); pre = post; }
+            if (g_fail)
+                printf("explore[v%d] continuation call %d op=%d k=%llu v=%llu a=%llu pk=%llu ttl=%lld now=%lld -> ok=%d val=%llu size=%zu\n", g_variant, xi,
+                       (int)cl.op, cl.k, cl.v, cl.al, cl.pk, cl.ttl, cl.now, (int)r.ok, (unsigned long long)r.val, r.size);
         }
     }
     else
@@ -230,6 +249,10 @@ static int run_state_mode(FILE* f)
         }
         else fseek(f, pos, SEEK_SET);
     }
+    {
+        long pos = ftell(f); char w[16]; int d = 0;
+        if (fscanf(f, " %15s %d", w, &d) == 2 && !strcmp(w, "explore")) g_explore = d; else fseek(f, pos, SEEK_SET);
+    }
     Call calls[4];
     int  ncalls = 0;
     while (ncalls < 4 && fscanf(f, " call %llu %llu %llu %llu %llu %lld %lld", &calls[ncalls].op, &calls[ncalls].k, &calls[ncalls].v,
@@ -246,6 +269,54 @@ static int run_state_mode(FILE* f)
         reached = true;
         if (r > worst) worst = r;
         if (r > 0) break; // reproduced with this slot arrangement
+    }
+    // ---- exploration: the (state, calls) pair did not violate a clause by itself (e.g. it only broke the representation
+    // invariant): enumerate short continuations on the real build (concrete runs are cheap) and evaluate the clauses
+    if (reached && worst == 0 && kind == 0 && g_explore > 0)
+    {
+        uint64_t keys[AMAX + 3]; int nk = 0;
+        for (size_t p = 0; p < t.n && p < AMAX; ++p) keys[nk++] = t.k[p];
+        for (int ci = 0; ci < ncalls; ++ci) { bool has = false; for (int i = 0; i < nk; ++i) if (keys[i] == calls[ci].k) has = true; if (!has && nk < (int)AMAX + 1) keys[nk++] = calls[ci].k; }
+        keys[nk++] = 0xABCD000000000001ULL; keys[nk++] = 0xABCD000000000002ULL;
+        long long last = calls[ncalls - 1].now, times[AMAX + 4]; int nt = 0;
+        times[nt++] = last; times[nt++] = last + 1;
+        for (size_t p = 0; p < t.n && p < AMAX; ++p) if (t.d[p] >= last) { times[nt++] = t.d[p]; }
+        times[nt++] = last + (t.tick > 0 ? t.tick : t.ttl) + 1;
+        const int ops[8] = {OP_INSERT, OP_ERASE, OP_FIND, OP_CLEAN, OP_AGE, OP_CLEAR, OP_UPDTTL, OP_FIND_PLAIN};
+        long budget = 200000; // concrete runs
+        struct Cand { Call c; };
+        static Cand cands[600]; int nc = 0;
+        for (int oi = 0; oi < 8; ++oi)
+        {
+            if (!op_valid(ops[oi]) || ops[oi] == OP_CLEAR || ops[oi] == OP_UPDTTL || ops[oi] == OP_FIND_PLAIN) continue;
+            const bool keyed = ops[oi] == OP_INSERT || ops[oi] == OP_ERASE || ops[oi] == OP_FIND;
+            for (int ki = 0; ki < (keyed ? nk : 1); ++ki)
+                for (int al = 1; al <= (ops[oi] == OP_INSERT ? 3 : 1); ++al)
+                    for (int pk = 0; pk <= ((ops[oi] == OP_FIND && T_PEEK) ? 1 : 0); ++pk)
+                        for (int ti = 0; ti < nt && nc < 600; ++ti)
+                        {
+                            Call c; c.op = ops[oi]; c.k = keys[ki]; c.v = 7700 + nc; c.al = al; c.pk = pk; c.ttl = (t.ttl > 0 ? t.ttl : 5); c.now = times[ti];
+                            cands[nc++].c = c;
+                        }
+        }
+        for (int depth = 1; depth <= g_explore && worst == 0; ++depth)
+        {
+            long idx[3] = {0, 0, 0};
+            long total = 1; for (int d = 0; d < depth; ++d) total *= nc;
+            for (long it = 0; it < total && worst == 0 && budget > 0; ++it, --budget)
+            {
+                long x = it; bool mono = true; long long prevt = last;
+                for (int d = 0; d < depth; ++d) { idx[d] = x % nc; x /= nc; g_extra[d] = cands[idx[d]].c; if (g_extra[d].now < prevt) mono = false; prevt = g_extra[d].now; }
+                if (!mono) continue;
+                g_nextra = depth;
+                for (g_variant = 0; g_variant <= 2 && worst == 0; ++g_variant)
+                {
+                    int r = state_attempt(t, last_now_, ttl_, tick_, calls, ncalls, 0, 0, 0);
+                    if (r > 0) { worst = r; printf("EXPLORE-REPRODUCED depth=%d variant=%d\n", depth, g_variant); }
+                }
+            }
+        }
+        g_nextra = 0;
     }
     if (!reached) { printf("BUILD-MISMATCH: the abstract pre-state was not reached by the state builder\n"); return 3; }
     printf("REPLAY-DONE steps=%d clause_failures=%d\n", ncalls, worst);
